@@ -10,24 +10,34 @@ include hC
 
 /-- re-encoding a decoded duration gives the same text (non-negative durations, or signed ones
 that are not rounded to zero) -/
-theorem fmtDur_requant {d : Int} (hd : d.natAbs ≤ durMax.toNat) (hs : 0 ≤ d ∨ 5000 < d.natAbs) :
+theorem fmtDur_requant {d : Int} (hd : DurDom d) (hm : d.natAbs + 5000 < durMax.toNat) :
     C.fmtDur (C.requant d) = C.fmtDur d := by
   obtain ⟨q, n, h1, h2, h3, h4, h5, h6⟩ := fmtDur_spec hC hd
   have hmax : durMax.toNat = 1000000000000000 := by decide
   have hreq : C.requant d = (if d < 0 then -(n : Int) else n) := by simp [Codec.requant, h2]
   have hn : (C.requant d).natAbs = n := by
     rw [hreq]; split <;> omega
-  have hd' : (C.requant d).natAbs ≤ durMax.toNat := by omega
+  have hnpos : d < 0 → 0 < n := by
+    intro hneg
+    have := hd.2 hneg
+    omega
+  have hd' : DurDom (C.requant d) := by
+    refine ⟨by omega, ?_⟩
+    intro hneg
+    rw [hn]
+    rw [hreq] at hneg
+    by_cases hdn : d < 0
+    · have := hd.2 hdn
+      omega
+    · simp [hdn] at hneg
+      omega
   obtain ⟨q', h1', h2', h3'⟩ := hC.fmt_dur (C.requant d) hd'
   rw [hn] at h2' h3'
   have hq : q' = q := by omega
   have hsign : decide (C.requant d < 0) = decide (d < 0) := by
     rw [hreq]
     by_cases hneg : d < 0
-    · have : 0 < n := by
-        rcases hs with h | h
-        · omega
-        · omega
+    · have := hnpos hneg
       simp [hneg]; omega
     · simp [hneg]
   rw [h1', h1, hq, hsign]
@@ -35,7 +45,7 @@ theorem fmtDur_requant {d : Int} (hd : d.natAbs ≤ durMax.toNat) (hs : 0 ≤ d 
 theorem Part.line_quantise {p : Part} (hw : wfPart p = true) : Part.line C (Part.quantise C p) = Part.line C p := by
   simp only [wfPart, Bool.and_eq_true] at hw
   have hd := natAbs_lt_of_posDur hw.1.1.1
-  simp only [Part.line, Part.attrs, Part.quantise, fmtDur_requant hC hd.1 (Or.inr hd.2)]
+  simp only [Part.line, Part.attrs, Part.quantise, fmtDur_requant hC hd.1 (margin_of_posDur hw.1.1.1)]
   all_goals rfl
 
 theorem partLines_quantise {ps : List Part} (hw : ps.all wfPart = true) :
@@ -57,7 +67,7 @@ theorem Segment.lines_quantise {s : Segment} (hw : wfSegment s = true) :
       rw [hdte] at hdt
       simp only [Option.all_some] at hdt
       simp only [Option.map_some, optLine, pdtLine, hC.time_trunc t hdt]
-  simp only [Segment.lines, Segment.quantise, extinfLine, fmtDur_requant hC hd'.1 (Or.inr hd'.2),
+  simp only [Segment.lines, Segment.quantise, extinfLine, fmtDur_requant hC hd'.1 (margin_of_posDur hd),
     partLines_quantise hC hp, hpdt]
   all_goals rfl
 
@@ -84,15 +94,17 @@ theorem Media.lines_quantise (p : Media) (hw : WFMedia p) : Media.lines C (Media
     | none => rfl
     | some t =>
       rw [hs] at hst
-      have hd := natAbs_lt_of_signedDur (by simpa using hst)
-      simp only [Option.map_some, optLine, startLine, fmtDur_requant hC hd.1 (Or.inr hd.2)]
+      have hst' : signedDur t = true := by simpa using hst
+      have hd := natAbs_lt_of_signedDur hst'
+      simp only [Option.map_some, optLine, startLine, fmtDur_requant hC hd.1 (margin_of_signedDur hst')]
   have h2 : optLine (p.partInf.map C.requant) (partInfLine C) = optLine p.partInf (partInfLine C) := by
     cases hs : p.partInf with
     | none => rfl
     | some t =>
       rw [hs] at hpi
-      have hd := natAbs_lt_of_posDur (by simpa using hpi)
-      simp only [Option.map_some, optLine, partInfLine, fmtDur_requant hC hd.1 (Or.inr hd.2)]
+      have hpi' : posDur t = true := by simpa using hpi
+      have hd := natAbs_lt_of_posDur hpi'
+      simp only [Option.map_some, optLine, partInfLine, fmtDur_requant hC hd.1 (margin_of_posDur hpi')]
   have h3 : optLine (p.serverControl.map (ServerControl.quantise C)) (serverControlLine C) =
       optLine p.serverControl (serverControlLine C) := by
     cases hs : p.serverControl with
@@ -101,11 +113,8 @@ theorem Media.lines_quantise (p : Media) (hw : WFMedia p) : Media.lines C (Media
       rw [hs] at hsc
       simp only [Option.all_some, Bool.and_eq_true] at hsc
       obtain ⟨cbr, phb, csu⟩ := t
-      have hnn : ∀ d : Int, nnDur d = true → C.fmtDur (C.requant d) = C.fmtDur d := fun d hd => by
-        have h0 : 0 ≤ d := by
-          simp [nnDur] at hd
-          exact hd.1
-        exact fmtDur_requant hC (natAbs_lt_of_nnDur hd) (Or.inl h0)
+      have hnn : ∀ d : Int, nnDur d = true → C.fmtDur (C.requant d) = C.fmtDur d := fun d hd =>
+        fmtDur_requant hC (natAbs_lt_of_nnDur hd) (margin_of_nnDur hd)
       simp only [Option.map_some, optLine, serverControlLine, ServerControl.attrs, ServerControl.quantise]
       cases phb <;> cases csu <;> simp_all
   simp only [Media.lines, Media.headerLines, Media.tailLines, Media.quantise, h1, h2, h3,
